@@ -55,6 +55,49 @@ fn emit(v: u64) {
     }
     unsafe { write(1, buf.as_ptr().add(i), 24 - i); }
 }
+#[unsafe(no_mangle)] pub static mut CALLN: u64 = 0;
+#[unsafe(no_mangle)] pub static mut CALLLOG: [u64; 128] = [0; 128];
+#[inline(never)]
+fn clog(tag: u64, a: [u64; 6]) {
+    unsafe {
+        let n = core::ptr::read_volatile(&raw const CALLN);
+        if n < 16 {
+            let base = (n * 8) as usize;
+            CALLLOG[base] = tag;
+            CALLLOG[base + 1] = a[0];
+            CALLLOG[base + 2] = a[1];
+            CALLLOG[base + 3] = a[2];
+            CALLLOG[base + 4] = a[3];
+            CALLLOG[base + 5] = a[4];
+            CALLLOG[base + 6] = a[5];
+        }
+        core::ptr::write_volatile(&raw mut CALLN, n + 1);
+    }
+}
+#[inline(never)]
+pub fn probe0() -> u64 {
+    t!();
+    clog(100, [0; 6]);
+    7
+}
+#[inline(never)]
+pub fn probe2(a: u64, b: u64) -> u64 {
+    t!();
+    clog(102, [a, b, 0, 0, 0, 0]);
+    a ^ b
+}
+#[inline(never)]
+pub fn probe3(a: i64, b: u32, c: u8) -> u64 {
+    t!();
+    clog(103, [a as u64, b as u64, c as u64, 0, 0, 0]);
+    1
+}
+#[inline(never)]
+pub fn probe6(a: i64, b: i32, c: u16, d: i8, e: bool, f: usize) -> u64 {
+    t!();
+    clog(106, [a as u64, b as i64 as u64, c as u64, d as i64 as u64, e as u64, f as u64]);
+    2
+}
 #[inline(never)]
 fn apply(f: impl Fn(u64) -> u64, x: u64) -> u64 {
     t!();
@@ -330,7 +373,10 @@ pub fn gen_micro(t: &mut Tape, size: u64) -> (String, Vec<String>) {
     g.line(0, "#[unsafe(no_mangle)]");
     g.line(0, "pub extern \"C\" fn main(_argc: i32, _argv: *const *const u8) -> i32 {");
     g.line(1, "t!();");
-    g.line(1, "let mut acc: u64 = 1;");
+    // arguments derived from argc (= 1, opaque to the optimiser): no interprocedural constant
+    // propagation into the probes, which the debugger later calls with other arguments
+    g.line(1, "let z = _argc as i64;");
+    g.line(1, "let mut acc: u64 = probe0() + probe2(z as u64, (z + 1) as u64) + probe3(-z, (z * 2) as u32, (z * 3) as u8) + probe6(-z, (-2 * z) as i32, (z * 3) as u16, (-4 * z) as i8, z == 1, (z * 5) as usize);");
     g.vars.push("acc".into());
     let total = 400 * size;
     let mut used = 0;
